@@ -115,6 +115,24 @@ func judgeError(name string, op string, e *sut.ErrInfo, texts map[string]string,
 	if len(want) > 150 {
 		want = want[:150]
 	}
+	if len(lineText) > 200 {
+		// a line of more than 200 bytes (indentation included) may be quoted in part: the quotation then is a
+		// beginning of the line (without its indentation) followed by "..." - and nothing else, in
+		// particular nothing of the lines that follow
+		i := strings.Index(e.Rendered, "> ")
+		if i < 0 {
+			return ev.V(fmt.Sprintf("position:line-not-quoted:code-%d", e.Code), "%s: the rendered error has no quotation of line %d:\n%s", op, line, e.Rendered)
+		}
+		q := e.Rendered[i+2:]
+		if j := strings.IndexAny(q, "\r\n"); j >= 0 {
+			q = q[:j]
+		}
+		part := strings.TrimLeft(strings.TrimSuffix(q, "..."), " \t")
+		if !strings.HasSuffix(q, "...") || !strings.HasPrefix(strings.TrimLeft(lineText, " \t"), part) {
+			return ev.V(fmt.Sprintf("position:line-not-quoted:code-%d", e.Code), "%s: the quotation %q is not a beginning of the long line %d %q followed by \"...\":\n%s", op, q, line, want, e.Rendered)
+		}
+		return nil
+	}
 	if !strings.Contains(e.Rendered, want) {
 		return ev.V(fmt.Sprintf("position:line-not-quoted:code-%d", e.Code), "%s: the rendered error does not quote line %d %q:\n%s", op, line, want, e.Rendered)
 	}
@@ -309,7 +327,25 @@ func mutate(t *rapid.T, s string) string {
 }
 
 func genCase(t *rapid.T) Case {
-	switch rapid.IntRange(0, 13).Draw(t, "entry") {
+	switch rapid.IntRange(0, 15).Draw(t, "entry") {
+	case 14, 15:
+		// an error on a line that is long only because of its indentation (more than 200 bytes in all, fewer
+		// after the leading blanks), in the middle of the text or as its last line
+		ind := strings.Repeat(rapid.SampledFrom([]string{" ", "\t", "  \t"}).Draw(t, "indent"), rapid.IntRange(60, 400).Draw(t, "indentlen"))
+		nl := rapid.SampledFrom([]string{"\n", "\r\n", "\r"}).Draw(t, "nl")
+		tail := rapid.SampledFrom([]string{"", nl + "}", nl + ind + "\"z\": 3" + nl + "}", nl + "}" + nl + nl}).Draw(t, "tail")
+		short := rapid.SampledFrom([]string{"\"k\": 1 // {min: 5}", "\"k\": tru", "\"k\": \"abc\" // {maxLength: 1}", "\"k\": @nowhere", "\"k\" 1", "\"k\": 1 // {unknownRule: 1}",
+			"\"k\": \"" + strings.Repeat("x", rapid.IntRange(1, 150).Draw(t, "fill")) + "\" // {maxLength: 0}"}).Draw(t, "short")
+		switch rapid.IntRange(0, 3).Draw(t, "indentkind") {
+		case 0:
+			return Case{Entry: "schema", Project: &sut.Project{Root: "{" + nl + "  \"a\": 1," + nl + ind + short + tail}}
+		case 1:
+			return Case{Entry: "schema", Project: &sut.Project{Root: "{" + nl + "  \"t\": @t" + nl + "}", Types: []sut.Named{{Name: "@t", Text: "{" + nl + ind + short + tail}}}}
+		case 2:
+			return Case{Entry: "doc", Text: "[" + nl + " 1," + nl + ind + "\"s\" x" + tail}
+		default:
+			return Case{Entry: "enum", Text: "[" + nl + "  \"a\"," + nl + ind + "\"a\"" + nl + "]"}
+		}
 	case 12, 13:
 		// an error on a line longer than the 200 bytes the renderer quotes, not on the first line
 		long := strings.Repeat(rapid.SampledFrom([]string{"x", "ab ", "é", "%d"}).Draw(t, "fill"), rapid.IntRange(70, 300).Draw(t, "longlen"))
